@@ -7,7 +7,7 @@ CONSTANTS
   MCM = 4
   EVOLUTIONS <- FewEvolutions
   MaxEvents = 3
-  MaxDeliver = 3
+  MaxDeliver = 2
   MaxReinit = 1
   EXPECTED = {1, 2}
   MaxBuf = 2
